@@ -136,6 +136,24 @@ def option_from_residual(ex, st, callee, args, m):
     return none()
 
 
+@model(r'^<(?:std::result::)?Result<.*> as (?:std::ops::|core::ops::)?Try>::branch$')
+def result_branch(ex, st, callee, args, m):
+    """Result `?`: Ok(v) -> Continue(v), Err(e) -> Break(Err(e))"""
+    r = args[0]
+    if not isinstance(r, Enum): raise Unsupported('Try::branch on %r' % (r,))
+    okp = r.fields.get('Ok') or [Opaque('ok')]
+    errp = r.fields.get('Err') or [Opaque('err')]
+    return Enum('ControlFlow', If(r.disc == 0, BitVecVal(0, 64), BitVecVal(1, 64)), {'Continue': okp, 'Break': [Enum('Result', BitVecVal(1, 64), {'Ok': [Opaque('ok')], 'Err': errp})]})
+
+
+@model(r'^<(?:std::result::)?Result<.*> as (?:std::ops::|core::ops::)?FromResidual<(?:std::result::)?Result<(?:std::convert::)?Infallible, .*>>>::from_residual$')
+def result_from_residual(ex, st, callee, args, m):
+    """Result `?` residual with the same error type (From::from is the identity): Err(e)"""
+    r = args[0]
+    errp = r.fields.get('Err') if isinstance(r, Enum) else None
+    return Enum('Result', BitVecVal(1, 64), {'Ok': [Opaque('ok')], 'Err': errp or [Opaque('err')]})
+
+
 @model(r'^(?:std::option::|core::option::)?Option::<.*>::(unwrap|expect)$')
 def option_unwrap(ex, st, callee, args, m):
     """Option::unwrap/expect: panics on None"""
@@ -258,6 +276,14 @@ def f64_misc(ex, st, callee, args, m):
 def prim_clone(ex, st, callee, args, m):
     """Clone of a Copy primitive"""
     return D(ex, args[0])
+
+
+@model(r'^<(usize|u64|u32|u16|u8|i64|i32|i16|i8|isize|bool) as (?:std::default::|core::default::)?Default>::default$')
+def prim_default(ex, st, callee, args, m):
+    """Default of an integer / bool: zero / false"""
+    t = m.group(1)
+    if t == 'bool': return BoolVal(False)
+    return BitVecVal(0, INT_W.get(t, 64))
 
 
 @model(r'^<(usize|u64|u32|u16|u8|i64|i32|i16|i8|isize) as (?:std::cmp::|core::cmp::)?Ord>::(min|max)$')
